@@ -33,6 +33,7 @@ MAY_PANIC = {
     "std::vec::Vec::split_off": "vec-pos",
     "std::vec::Vec::truncate": None,
     "std::string::String::remove": "str-pos",
+    "std::string::String::truncate": "str-pos",
     "std::string::String::insert": "str-pos",
     "std::string::String::insert_str": "str-pos",
     "std::string::String::split_off": "str-pos",
